@@ -164,7 +164,15 @@ func undelta(args []Operand) []float64 {
 }
 
 // Parse walks a CFF font set containing exactly one font.
-func Parse(data []byte) (*Parsed, error) {
+func Parse(data []byte) (*Parsed, error) { return parse(data, true) }
+
+// ParseLayout is Parse without interpreting the charstrings (Font.Glyphs has
+// the right length but holds zero values) and without the tiling check, so
+// that fonts with arbitrary glyph programs, subroutines and unused bytes can
+// be walked for their structure.
+func ParseLayout(data []byte) (*Parsed, error) { return parse(data, false) }
+
+func parse(data []byte, glyphs bool) (*Parsed, error) {
 	w := &walker{data: data}
 	w.lay.OffSize = map[string]int{}
 	w.lay.IntForms = map[int]int{}
@@ -436,6 +444,9 @@ func Parse(data []byte) (*Parsed, error) {
 		if f.IsCID {
 			fd = f.FDSelect[gid]
 		}
+		if !glyphs {
+			break
+		}
 		p := &f.FDs[fd].Private
 		f.Glyphs[gid], err = DecodeTrivial(cs, p.DefaultWidthX, p.NominalWidthX)
 		if err != nil {
@@ -443,8 +454,10 @@ func Parse(data []byte) (*Parsed, error) {
 		}
 	}
 
-	if err := w.tile(); err != nil {
-		return nil, err
+	if glyphs {
+		if err := w.tile(); err != nil {
+			return nil, err
+		}
 	}
 	return &Parsed{Font: f, Layout: w.lay}, nil
 }
